@@ -157,6 +157,9 @@ func doInitExtensions(domain string, agentPaths []string, execCtx *rapidContext,
 		}
 		agentName := fmt.Sprintf("extension-%s-%d", path.Base(agentPath), execCtx.runtimeDomainGeneration)
 
+		// the exit event may be handled before Exec has returned: its handler needs the channel
+		execCtx.shutdownContext.createExitedChannel(agentName)
+
 		err = execCtx.supervisor.Exec(context.Background(), &supvmodel.ExecRequest{
 			Domain: domain,
 			Name:   agentName,
@@ -174,11 +177,10 @@ func doInitExtensions(domain string, agentPaths []string, execCtx *rapidContext,
 			StderrWriter: agentStderrWriter,
 		})
 		if err != nil {
+			execCtx.shutdownContext.forgetExitedChannel(agentName)
 			agentLaunchError(agent, execCtx.appCtx, err)
 			return err
 		}
-
-		execCtx.shutdownContext.createExitedChannel(agentName)
 	}
 
 	if err := initFlow.AwaitExternalAgentsRegistered(); err != nil {
@@ -341,6 +343,9 @@ func doRuntimeDomainInit(execCtx *rapidContext, sbInfoFromInit interop.SandboxIn
 	checkCredentials(execCtx, bootstrapEnv)
 	name := fmt.Sprintf("%s-%d", runtimeProcessName, execCtx.runtimeDomainGeneration)
 
+	// the exit event may be handled before Exec has returned: its handler needs the channel
+	execCtx.shutdownContext.createExitedChannel(name)
+
 	err = execCtx.supervisor.Exec(context.Background(), &supvmodel.ExecRequest{
 		Domain: RuntimeDomain,
 		Name:   name,
@@ -369,6 +374,7 @@ func doRuntimeDomainInit(execCtx *rapidContext, sbInfoFromInit interop.SandboxIn
 	}()
 
 	if err != nil {
+		execCtx.shutdownContext.forgetExitedChannel(name)
 		if fatalError, formattedLog, hasError := sbInfoFromInit.RuntimeBootstrap.CachedFatalError(err); hasError {
 			appctx.StoreFirstFatalError(execCtx.appCtx, fatalError)
 			execCtx.eventsAPI.SendImageErrorLog(interop.ImageErrorLogData(formattedLog))
@@ -379,8 +385,6 @@ func doRuntimeDomainInit(execCtx *rapidContext, sbInfoFromInit interop.SandboxIn
 		runtimeDoneStatus = telemetry.RuntimeDoneError
 		return err
 	}
-
-	execCtx.shutdownContext.createExitedChannel(name)
 
 	if err := initFlow.AwaitRuntimeRestoreReady(); err != nil {
 		runtimeDoneStatus = telemetry.RuntimeDoneError
